@@ -206,6 +206,7 @@ func Read(fd int, b []byte) (int, error) {
 		}
 		return n, err
 	}
+	atomic.AddInt64(&realReads, 1)
 	if h := RealReadHook; h != nil {
 		n, err := syscall.Read(fd, b)
 		h(fd, b, n, err)
@@ -248,6 +249,7 @@ func Recvfrom(fd int, b []byte, flags int) (int, syscall.Sockaddr, error) {
 		}
 		return n, from, err
 	}
+	atomic.AddInt64(&realReads, 1)
 	return syscall.Recvfrom(fd, b, flags)
 }
 
@@ -509,6 +511,9 @@ func EpollWait(epfd int, events []syscall.EpollEvent, msec int) (int, error) {
 		default:
 		}
 		n, err := syscall.EpollWait(epfd, events, 1)
+		if n > 0 {
+			atomic.AddInt64(&realWakeups, 1)
+		}
 		if n > 0 || (err != nil && err != syscall.EINTR) {
 			return n, err
 		}
